@@ -65,7 +65,7 @@ theorem resetChannel_mid (c : C) (r : List Task) (ph : Bool) (hi : Mid c (.reset
     simp at h6c this; omega
   unfold resetChannel
   rw [if_neg (by simp [h6b])]
-  obtain ⟨notDead, a1, a2, a3, a4, a5, a6, a7, a8, a9, a10, a11, a13, a14, a15, a16, s1, c1, c2, c3, c4, c5, c6, c7, c8, c9, g1, g3, t1⟩ := hi
+  obtain ⟨notDead, a1, a2, a3, a4, a5, a6, a7, a8, a9, a10, a11, a13, a14, a15, a16, s1, c1, c2, c3, c4, c5, c6, c7, c8, c9, c10, g1, g3, t1⟩ := hi
   constructor
   all_goals mid_auto
 
@@ -131,7 +131,7 @@ theorem startInLoop_mid (c : C) (r : List Task) (ph : Bool) (hi : Mid c r ph) (h
     have hd := nextDelay_spec c.nretry
     have hdp := specDelay_pos c.nretry
     have hnz := nRetry_zero hnt
-    obtain ⟨notDead, a1, a2, a3, a4, a5, a6, a7, a8, a9, a10, a11, a13, a14, a15, a16, s1, c1, c2, c3, c4, c5, c6, c7, c8, c9, g1, g3, t1⟩ := hi
+    obtain ⟨notDead, a1, a2, a3, a4, a5, a6, a7, a8, a9, a10, a11, a13, a14, a15, a16, s1, c1, c2, c3, c4, c5, c6, c7, c8, c9, c10, g1, g3, t1⟩ := hi
     unfold connect
     simp only
     obtain ⟨e, b, he⟩ := popConnect_snd ({ c with nsock := c.nsock + 1, sockSt := c.sockSt ++ [SockSt.opened], trace := c.trace ++ [Ev.sockCreated c.nsock, Ev.attempt c.nsock c.now] } : C)
@@ -180,7 +180,7 @@ theorem stopInLoop_mid (c : C) (r : List Task) (ph : Bool) (hi : Mid c (.stopInL
     simp only [retryClosesSocket, retryUsesOldDelay, retrySchedules, if_true, retryDelayUs]
     cases hcc : c.cConnect
     · simp only [Bool.false_eq_true, if_false]
-      obtain ⟨notDead, a1, a2, a3, a4, a5, a6, a7, a8, a9, a10, a11, a13, a14, a15, a16, s1, c1, c2, c3, c4, c5, c6, c7, c8, c9, g1, g3, t1⟩ := hi
+      obtain ⟨notDead, a1, a2, a3, a4, a5, a6, a7, a8, a9, a10, a11, a13, a14, a15, a16, s1, c1, c2, c3, c4, c5, c6, c7, c8, c9, c10, g1, g3, t1⟩ := hi
       constructor
       all_goals mid_auto
     · simp only [if_true]
@@ -196,12 +196,12 @@ theorem stopInLoop_mid (c : C) (r : List Task) (ph : Bool) (hi : Mid c (.stopInL
         · have := (hi.g3 h).1; rw [hcc] at this; cases this
       have htr3 := htr2.retrySched (t := c.now) hsr hal
       rw [← hi.g1] at htr3
-      obtain ⟨notDead, a1, a2, a3, a4, a5, a6, a7, a8, a9, a10, a11, a13, a14, a15, a16, s1, c1, c2, c3, c4, c5, c6, c7, c8, c9, g1, g3, t1⟩ := hi
+      obtain ⟨notDead, a1, a2, a3, a4, a5, a6, a7, a8, a9, a10, a11, a13, a14, a15, a16, s1, c1, c2, c3, c4, c5, c6, c7, c8, c9, c10, g1, g3, t1⟩ := hi
       constructor
       all_goals mid_auto
   · rename_i hst
     simp only [stopActs] at hst
-    obtain ⟨notDead, a1, a2, a3, a4, a5, a6, a7, a8, a9, a10, a11, a13, a14, a15, a16, s1, c1, c2, c3, c4, c5, c6, c7, c8, c9, g1, g3, t1⟩ := hi
+    obtain ⟨notDead, a1, a2, a3, a4, a5, a6, a7, a8, a9, a10, a11, a13, a14, a15, a16, s1, c1, c2, c3, c4, c5, c6, c7, c8, c9, c10, g1, g3, t1⟩ := hi
     constructor
     all_goals mid_auto
 
@@ -241,13 +241,13 @@ theorem failAttempt_mid (c : C) (r : List Task) (hi : Mid c r false) (hon : c.ch
   simp only [retryClosesSocket, retryUsesOldDelay, retrySchedules, if_true, retryDelayUs]
   cases hcc : c.cConnect
   · simp only [Bool.false_eq_true, if_false]
-    obtain ⟨notDead, a1, a2, a3, a4, a5, a6, a7, a8, a9, a10, a11, a13, a14, a15, a16, s1, c1, c2, c3, c4, c5, c6, c7, c8, c9, g1, g3, t1⟩ := hi
+    obtain ⟨notDead, a1, a2, a3, a4, a5, a6, a7, a8, a9, a10, a11, a13, a14, a15, a16, s1, c1, c2, c3, c4, c5, c6, c7, c8, c9, c10, g1, g3, t1⟩ := hi
     constructor
     all_goals mid_auto
   · simp only [if_true]
     have htr3 := htr2.retrySched (t := c.now) (hsr hcc) (hal hcc)
     rw [← hi.g1] at htr3
-    obtain ⟨notDead, a1, a2, a3, a4, a5, a6, a7, a8, a9, a10, a11, a13, a14, a15, a16, s1, c1, c2, c3, c4, c5, c6, c7, c8, c9, g1, g3, t1⟩ := hi
+    obtain ⟨notDead, a1, a2, a3, a4, a5, a6, a7, a8, a9, a10, a11, a13, a14, a15, a16, s1, c1, c2, c3, c4, c5, c6, c7, c8, c9, c10, g1, g3, t1⟩ := hi
     constructor
     all_goals mid_auto
 
@@ -315,7 +315,7 @@ theorem handOver_mid (c : C) (r : List Task) (hi : Mid c r false) (hon : c.chanO
     have := hi.tr; rw [hups] at this ⊢
     exact this.handUp hop hnone (hsr hcc) (hal hcc)
   have hal' := hal hcc
-  obtain ⟨notDead, a1, a2, a3, a4, a5, a6, a7, a8, a9, a10, a11, a13, a14, a15, a16, s1, c1, c2, c3, c4, c5, c6, c7, c8, c9, g1, g3, t1⟩ := hi
+  obtain ⟨notDead, a1, a2, a3, a4, a5, a6, a7, a8, a9, a10, a11, a13, a14, a15, a16, s1, c1, c2, c3, c4, c5, c6, c7, c8, c9, c10, g1, g3, t1⟩ := hi
   constructor
   all_goals mid_auto
 
@@ -353,7 +353,7 @@ theorem closeEstablished_mid (c : C) (r : List Task) (hi : Mid c r false) (hon :
     · rfl
     · have := (hi.g3 h).1; rw [hcc] at this; cases this
   unfold closeSock
-  obtain ⟨notDead, a1, a2, a3, a4, a5, a6, a7, a8, a9, a10, a11, a13, a14, a15, a16, s1, c1, c2, c3, c4, c5, c6, c7, c8, c9, g1, g3, t1⟩ := hi
+  obtain ⟨notDead, a1, a2, a3, a4, a5, a6, a7, a8, a9, a10, a11, a13, a14, a15, a16, s1, c1, c2, c3, c4, c5, c6, c7, c8, c9, c10, g1, g3, t1⟩ := hi
   constructor
   all_goals mid_auto
 
